@@ -15,7 +15,9 @@ PROP = {
                    "because lnd chooses them. A keysend HTLC that proves knowledge of the preimage is exempt from the "
                    "payment-address clause (documented lnd behaviour, reported as diagnostic). Replay clause is judged only "
                    "for HTLCs that were accepted/settled before (a never-recorded HTLC is legitimately re-evaluated). "
-                   "KV-vs-SQLite equality of verdict kinds is a diagnostic, not a verdict."),
+                   "KV-vs-SQLite equality of verdict kinds is a diagnostic, not a verdict. Known finding KF-C15-1/2 "
+                   "(replayed keysend/AMP HTLC re-checked against the current height before replay detection) is matched "
+                   "only by the fingerprint class '/replay-precheck:invalid_(keysend|amp)_parameters'."),
     "design_ref": "DESIGN.md §3 C15",
     "rule": ("One case = one PRNG event sequence executed on the KV and on the SQLite store (seq unit) or once with "
              "concurrent notifiers (conc unit). A run is non-trivial when at least one HTLC was accepted or settled; "
